@@ -51,8 +51,13 @@ def make_formatter(cfg):
         def render(self, result):
             self.captured = result
             return F.XMLFormatter.render(self, result)
-    return Capturing(normalize=cfg["normalize"], pretty_print=False, text_tags=tuple(cfg["tt"]),
-                     formatting_tags=tuple(cfg["fmt"]), use_replace=cfg["replace"])
+    fm = Capturing(normalize=cfg["normalize"], pretty_print=False, text_tags=tuple(cfg["tt"]),
+                   formatting_tags=tuple(cfg["fmt"]), use_replace=cfg["replace"])
+    if cfg.get("ctr"):
+        # a maker that has handed out many placeholders already (a formatter in long use / a very large document): the
+        # next ones lie at the end of, and beyond, the private-use area U+E000..U+F8FF
+        fm.placeholderer.placeholder = cfg["ctr"]
+    return fm
 
 
 def xcanon(e):
@@ -132,6 +137,7 @@ def run_impl(c):
         try:
             out = fm.format(script, L)
             c["out_str"] = out
+            c["ph_left"] = sorted(ch for ch in fm.placeholderer.placeholder2tag if ch in out)
             c["out"] = xcanon(fm.captured)
             c["dup_xmlid"] = dup_xmlid(fm.captured)
         except Exception as ex:  # noqa
@@ -488,6 +494,8 @@ def oracle_C08_msg(c):
         t = etree.fromstring(c["out_str"])
     except Exception as ex:  # noqa
         return "the output does not parse as XML: %s" % ex
+    if c.get("ph_left") and not any(ch in c["left"] + c["right"] for ch in c["ph_left"]):
+        return "characters the formatter substituted for tags are left in the output: %s" % ", ".join("U+%04X" % ord(ch) for ch in c["ph_left"])
     for e in t.iter():
         if not isinstance(e.tag, str):
             continue
@@ -663,7 +671,7 @@ def coq_case(c):
 
 
 def modelable(c):
-    if not c.get("supported") or "script" not in c or c["kind"] == "reserved":
+    if not c.get("supported") or "script" not in c or c["kind"] in ("reserved", "latectr"):
         return False
     if "exc" in c and c["exc"] not in ERRS:
         return False
@@ -723,6 +731,19 @@ def gen_texttags(rng, n):
             cfg["replace"] = False
         out.append({"kind": "texttags", "left": xml(PH.build_root(t1)), "right": xml(PH.build_root(t2)), "cfg": cfg,
                     "opts": rng.choice(gen.OPTION_SETS[:5]), "late": rng.random() < 0.1})
+    return out
+
+
+def gen_latectr(rng, n):
+    """text-tag documents formatted by a maker whose counter stands just below the end of the private-use area, so the
+    placeholders of this run straddle U+F8FF (what a formatter in long use, or a document with > 6393 distinct inline
+    elements, reaches).  Oracle only (the model's theorems carry the premise ctr <= PUA_END)."""
+    out = []
+    for c in gen_texttags(rng, n):
+        c["kind"] = "latectr"
+        c["cfg"]["replace"] = False
+        c["cfg"]["ctr"] = rng.choice([0xF8F6, 0xF8FA, 0xF8FD, 0xF8FF, 0xF900])
+        out.append(c)
     return out
 
 
@@ -1042,6 +1063,7 @@ def gen_inputs(run, rng):
     cases += gen_struct(rng, 500 if quick else 5000)
     cases += gen_texttags(rng, 500 if quick else 5000)
     cases += gen_wsonly(rng, 40 if quick else 300)
+    cases += gen_latectr(rng, 80 if quick else 800)
     cases += gen_sibshift(rng, 40 if quick else 300)
     # scripts that do not fit the tree (error paths of _xpath and of the attribute handlers)
     mut = gen_struct(rng, 120 if quick else 1200)
@@ -1093,6 +1115,58 @@ def gen_sequences(rng, n):
     return out
 
 
+CHAIN_CFGS = [dict(text_tags=("p",), formatting_tags=("b", "i")), dict(text_tags=("p", "q"), formatting_tags=("b",), normalize=3),
+              dict(text_tags=("p",)), dict(text_tags=("p",), formatting_tags=("b", "i", "u"), pretty_print=False)]
+CHAIN_FIXED = [
+    ["<doc><p>The <b>quick</b> brown fox jumps over the lazy dog.</p></doc>",
+     "<doc><p>The <b>quick</b> brown <i>fox</i> jumps over the <u>lazy</u> dog <img src='dog.png'/>.</p></doc>",
+     "<doc><p>The quick brown fox jumps over the lazy dog.</p></doc>",
+     "<doc><p>The quick brown fox jumped over the <b>lazy</b> dog.</p></doc>"],
+    ["<doc><p>one<br/>two <ref>4</ref> x</p><p>same<br/></p></doc>", "<doc><p>one<br/>two <ref>5</ref> x</p><p>same<br/></p><p>new<br/></p></doc>",
+     "<doc><p>one two <ref>5</ref> x<br/></p></doc>"],
+]
+
+
+def gen_chain(rng):
+    def doc():
+        root = etree.Element("doc")
+        for _ in range(rng.randint(1, 3)):
+            p = etree.SubElement(root, rng.choice(["p", "q", "s"]))
+            p.text = rng.choice(["The quick ", "x ", "", "lazy dog "])
+            for _ in range(rng.randint(0, 3)):
+                c = etree.SubElement(p, rng.choice(["b", "i", "img", "br"]))
+                if c.tag in ("b", "i") and rng.random() < .8:
+                    c.text = rng.choice(["quick", "fox", "z"])
+                c.tail = rng.choice([" brown ", " jumps", "", " over"])
+        return xml(root)
+    return [doc() for _ in range(rng.randint(3, 4))]
+
+
+def run_chain(revs, cfg, star=False):
+    """ONE XMLFormatter with text tags (its placeholder table persists, and prepare() rewrites the caller's trees) used
+    along a chain of revisions v1->v2->v3 (or v1->v2, v1->v3 with star) of trees that are parsed ONCE: every result must
+    equal what a new formatter gives for freshly parsed documents (so it is as well formed and placeholder free)."""
+    from xmldiff import main as xm, formatting as F
+
+    def one(L, R, f):
+        try:
+            return xm.diff_trees(L, R, formatter=f)
+        except Exception as ex:  # noqa
+            return "EXC %s: %s" % (type(ex).__name__, str(ex)[:120])
+    f = F.XMLFormatter(**cfg)
+    trees = [etree.fromstring(r) for r in revs]
+    for k in range(len(revs) - 1):
+        a = 0 if star else k
+        ref = one(etree.fromstring(revs[a]), etree.fromstring(revs[k + 1]), F.XMLFormatter(**cfg))
+        if ref.startswith("EXC "):
+            return None
+        got = one(trees[a], trees[k + 1], f)
+        if got != ref:
+            return ("diff no. %d along a chain of revisions with ONE XMLFormatter(%r) on trees parsed once differs from a new formatter on "
+                    "freshly parsed documents: got %s, expected %s" % (k + 1, cfg, got[:300], ref[:300]))
+    return None
+
+
 def check_sequences(run, rng):
     quick = run.tier == "quick"
     seqs = gen_sequences(rng, 60 if quick else 600)
@@ -1101,7 +1175,16 @@ def check_sequences(run, rng):
         why = run_sequence(l, rs)
         if why:
             viols.append({"what": why, "replay": {"kind": "sequence", "left": l, "right": rs[0], "rights": rs, "finding_key": None}})
-    return len(seqs), viols
+    chains = [list(c) for c in CHAIN_FIXED] + [gen_chain(rng) for _ in range(60 if quick else 600)]
+    for i, revs in enumerate(chains):
+        for cfg in (CHAIN_CFGS if i < len(CHAIN_FIXED) else [rng.choice(CHAIN_CFGS)]):
+            for star in (False, True):
+                why = run_chain(revs, cfg, star)
+                if why:
+                    viols.append({"what": why, "replay": {"kind": "chain", "left": revs[0], "right": revs[1], "revisions": revs,
+                                                          "cfg": {k: (list(v) if isinstance(v, tuple) else v) for k, v in cfg.items()},
+                                                          "star": star, "finding_key": None}})
+    return len(seqs) + 2 * len(chains), viols
 
 
 # ----------------------------------------------------------------------------
@@ -1323,7 +1406,14 @@ def replay(run, path, focus):
         why = run_sequence(d["left"], d["rights"])
         print("->", why or "property holds on this sequence")
         return 1 if why else 0
+    if d.get("kind") == "chain":
+        cfg = {k: (tuple(v) if isinstance(v, list) else v) for k, v in d["cfg"].items()}
+        why = run_chain(d["revisions"], cfg, d.get("star", False))
+        print("->", why or "property holds on this chain")
+        return 1 if why else 0
     c = {k: d[k] for k in ("kind", "left", "right", "cfg", "opts", "late", "mutate") if k in d}
+    c.setdefault("cfg", {"normalize": WS_NONE, "replace": False, "tt": [], "fmt": []})
+    c.setdefault("kind", "replay"); c.setdefault("late", False)
     run_impl(c)
     print("script:", [repr(a) for a in c.get("script", [])])
     print("impl:", c.get("exc") or c.get("out_str"))
